@@ -239,6 +239,18 @@ pub fn run(out: &mut Out, tier: &str, seed: u64, corpus: Option<&str>) {
             }
         }
     }
+    // ---- 8-bit YUV: every (y, v) pair (red depends on exactly these) and every (y, u) pair (blue), green on the way
+    {
+        let fi = id_of(Format::AYUV);
+        let ystep = if thorough { 1 } else { 3 };
+        for y in (0..256u32).step_by(ystep) {
+            for which in 0..2 {
+                let mut data = Vec::with_capacity(1024);
+                for c in 0..256u32 { let other = (c * 97 + y * 31 + 13) % 256; let (u, v) = if which == 0 { (other, c) } else { (c, other) }; data.extend_from_slice(&[v as u8, u as u8, y as u8, (c ^ y) as u8]); }
+                emit(out, fi, ((y as usize) + which) % 3, 256, 1, &data);
+            }
+        }
+    }
     // ---- sub-sampled formats (ids 35..41): odd / even widths and heights, all byte values per position
     for fi in 35..42usize {
         let reps = if thorough { 200 } else { 24 };
